@@ -9,46 +9,46 @@ HERE = os.path.dirname(os.path.dirname(os.path.abspath(__file__)))
 TRUST = "Trusted: rustc + std, the harness' reference models (kept boring: Vec, u128 arithmetic, textbook formulas), the hand-made Raw/Part models (a coder only ever sees (left cumulative, probability), so they present every well-formed model at the listed precisions). Coverage is exhaustive for the instantiations, alphabets and depths named in the evidence and nothing beyond; wider types are explored shallower and rely on the source being width-parametric."
 
 TEXT = {
- "C01": ("exhaustive history DFS + all-states single-step sweep of the real AnsCoder vs a Vec reference stack",
-         "Every operation history over {encode(letter), decode(matching model)} up to the stated depth, from the empty coder and from 50+ imported word strings, executed on the real AnsCoder for the whole (Word,State) matrix (deep on 8-bit words); re-import, clone and batch/reverse/fallible forms compared at every node; plus a single-step induction (decode(encode(s)) = s and encode(decode(s)) = s) over ALL 2^16 head values of AnsCoder<u8,u16>. Bounded-exhaustive coverage is the right level for an arithmetic state machine whose rare events (flush/refill thresholds) become frequent at 8-bit words.", TRUST, "§3 C01"),
- "C02": ("exhaustive symbol-sequence DFS on the real RangeEncoder/RangeDecoder, every node sealed and decoded",
-         "All symbol sequences over mixed-precision alphabets up to the stated depth on 8-bit words with 16/32/64-bit state (where carries and inverted situations occur within depth 6) and shallower on wide types; at every node the stream is sealed and fully decoded through two decoder constructions, clear() is compared with new(). Event counters prove inverted situations, both carry resolutions and two-word seals were explored; a run without them exits 2.", TRUST, "§3 C02"),
- "C03": ("exhaustive input sweep in isolated child processes: every float / fixed-point table, quantised distribution and uniform range of the stated spaces; validity + exact-invertibility oracle over all quantiles",
-         "Every float table of length <= 3 (thorough 4) over 18 boundary floats (denormals, tails below resolution, 2^24/2^53, 1e+-300) as f32 and f64 at 12 (Probability,PRECISION) configurations through the fast, lazy, perfect, lookup and non-contiguous constructors; all u8 fixed-point tables of length <= 2 (3) at 5 precisions; 6 distribution families x 13 locations x 9 scales x 4 inverse hints x supports on 9 (Symbol,Probability,PRECISION) configurations; uniform ranges. Oracle: consecutive non-empty intervals tiling [0,2^P), nothing outside the support, no probability one, and quantile_function == left_cumulative_and_probability on ALL quantiles for P <= 12 (boundary quantiles + stride above). Aborts and hangs of a case are caught by process isolation with a watchdog and judged.", TRUST + " Float parameter space is a grid (the quantile and symbol dimensions are exhaustive); the probability crate's cdf/inverse are black boxes.", "§3 C03"),
- "C05": ("exhaustive input sweep (same spaces as C03); every representation reachable from a model tabulated and compared row by row",
+ "C01": ("exhaustive history DFS + all-states single-step sweep of the real AnsCoder vs a Vec reference stack; boundary-head single-step sweep on the wider instantiations; inspection invariance and refused-write histories at/along every node",
+         "Every operation history over {encode(letter), decode(matching model)} up to the stated depth, from the empty coder and from 50+ imported word strings, executed on the real AnsCoder for the whole (Word,State) matrix (deep on 8-bit words); re-import, clone and batch/reverse/fallible forms compared at every node; plus a single-step induction (decode(encode(s)) = s and encode(decode(s)) = s) over ALL 2^16 head values of AnsCoder<u8,u16>. Bounded-exhaustive coverage is the right level for an arithmetic state machine whose rare events (flush/refill thresholds) become frequent at 8-bit words. The single-step induction also runs from boundary head values (range ends, powers of two, refill and flush thresholds) on the six wider instantiations. At every node a temporary view / iterator that is dropped must leave the coder as it was; histories in which a bounded or failing backend refuses an encode must still pop in order.", TRUST, "§3 C01"),
+ "C02": ("exhaustive symbol-sequence DFS on the real RangeEncoder/RangeDecoder, every node sealed and decoded; single-step synchronisation induction of encoder and decoder from arbitrary raw states",
+         "All symbol sequences over mixed-precision alphabets up to the stated depth on 8-bit words with 16/32/64-bit state (where carries and inverted situations occur within depth 6) and shallower on wide types; at every node the stream is sealed and fully decoded through two decoder constructions, clear() is compared with new(). Event counters prove inverted situations, both carry resolutions and two-word seals were explored; a run without them exits 2. Single-step induction from raw states built with from_raw_parts (every lower x boundary ranges on (u8,u16), boundary x boundary on six wider instantiations) x all letters x points all over the interval: the encoder's next state is the textbook step, the decoder decodes the part containing its point, reports InvalidData exactly in the unusable top slice, and lands in the encoder's next state. An encoder inspected between symbols must continue like the uninspected one.", TRUST, "§3 C02"),
+ "C03": ("exhaustive input sweep in isolated child processes: every float / fixed-point table, quantised distribution and uniform range of the stated spaces; validity + exact-invertibility oracle over all quantiles; long tables at tiny precisions; converted lookup models",
+         "Every float table of length <= 3 (thorough 4) over 18 boundary floats (denormals, tails below resolution, 2^24/2^53, 1e+-300) as f32 and f64 at 12 (Probability,PRECISION) configurations through the fast, lazy, perfect, lookup and non-contiguous constructors; all u8 fixed-point tables of length <= 2 (3) at 5 precisions; 6 distribution families x 13 locations x 9 scales x 4 inverse hints x supports on 9 (Symbol,Probability,PRECISION) configurations; uniform ranges. Oracle: consecutive non-empty intervals tiling [0,2^P), nothing outside the support, no probability one, and quantile_function == left_cumulative_and_probability on ALL quantiles for P <= 12 (boundary quantiles + stride above). Aborts and hangs of a case are caught by process isolation with a watchdog and judged. Long float tables (more symbols than 2^PRECISION) at P = 2, 3, 4; lookup models obtained by conversion are judged as well.", TRUST + " Float parameter space is a grid (the quantile and symbol dimensions are exhaustive); the probability crate's cdf/inverse are black boxes.", "§3 C03"),
+ "C05": ("exhaustive input sweep (same spaces as C03); every representation reachable from a model tabulated and compared row by row; eager/lazy cross coding",
          "For every model of the C03 sweep: direct queries vs symbol_table vs as_view vs to_generic_encoder/decoder/lookup_decoder_model vs to_lookup_decoder_model vs as_contiguous_categorical; eager vs lazy with the same-named constructor; lookup vs searched; contiguous vs non-contiguous with identity relabelling; encoder hash table vs decoder table.", TRUST, "§3 C05"),
- "C04": ("exhaustive input sweep: all word strings x all model sequences on the real AnsCoder, both raw-binary accessors",
+ "C04": ("exhaustive input sweep: all word strings x all model sequences on the real AnsCoder, both raw-binary accessors; borrowing view followed by the consuming export on the same coder",
          "Every u8 word string of length <= 2 (thorough: 3) and longer strings over boundary words, for 7 (Word,State) instantiations; from_binary, decode with every model sequence over 15 models up to length 3-4, re-encode in reverse, compare into_binary AND get_binary AND num_valid_bits AND the raw coder state with the original.", TRUST, "§3 C04"),
- "C06": ("differential exhaustive walk: real coders vs independent textbook rANS / carry-propagating range coder at every node; documentation vectors",
-         "At every node of the ANS history walk and the range-coder sequence walk the words the implementation would export equal those of an independent reference written from the published algorithms and notes/range-coding.md; 14 byte-exact vectors from README/lib.rs/stream docs/test_docexamples.py are replayed.", TRUST + " The Python front end itself cannot be built offline; its Rust entry points are exercised.", "§3 C06"),
+ "C06": ("differential exhaustive walk: real coders vs independent textbook rANS / carry-propagating range coder at every node; documentation vectors; reading direction (reference words loaded back); the Python front end built from the same tree replayed against the Rust front end on an exhaustive set of small messages + the repository's documentation examples",
+         "At every node of the ANS history walk and the range-coder sequence walk the words the implementation would export equal those of an independent reference written from the published algorithms and notes/range-coding.md; 14 byte-exact vectors from README/lib.rs/stream docs/test_docexamples.py are replayed. The reference's words are loaded back with from_compressed and must give the writer's state. Python front end (pyo3 bindings built from the working tree by the check driver): every message up to length 4 (thorough 6) over 15 models x {ANS, range coder} must give identical words in both front ends and decode back; all 129 test functions of tests/python/test_docexamples*.py / test_lazy_*.py are executed. If the bindings cannot be built this part is listed under caps_hit as not covered.", TRUST + "", "§3 C06"),
  "C07": ("exhaustive snapshot/seek-pair enumeration over 5 decoder kinds per coder on every message of the walk",
          "For every message up to the stated depth: pos() at every symbol boundary (also while words are held back), all ordered seek pairs with a decode in between, decode to the end/bottom, over owned/borrowed/consuming/reversed/temporary decoders; positions beyond the data must be refused and leave the decoder usable.", TRUST, "§3 C07"),
  "C08": ("twin execution at every node of the walks + explicit-state BFS of the bit-level coders",
          "8 inspection operations x {once, twice} on a clone at every node of the range and ANS walks (incl. inverted situation, empty coder, raw-binary loads, states with interior zero words); view == what finishing would return, full raw state unchanged, continued encoding identical to the untouched twin. Bit coders: observational oracle inside the C16 BFS.", TRUST, "§3 C08"),
- "C09": ("exhaustive insertion of impossible symbols at every position of every short history on 4 coder families; fault enumeration over every sink capacity and every failing call index",
-         "(A) 9 model types x dense out-of-support candidates incl. s + k*2^ProbabilityBits and s + k*2^32; (B) all histories of length <= 5 (thorough 7) over 4 symbols x every insertion position x 7-8 impossible symbols on AnsCoder, RangeEncoder, ChainCoder and the bit coders with a Huffman codebook: ImpossibleSymbol, complete coder state unchanged, continued history round-trips; (C) ANS coder over a bounded Cursor sink of EVERY capacity 0..=needed+1 and over a callback sink failing at EVERY call index: backend error, coder bit-identical, earlier symbols decode, encoding continues after room is made, a failing get_compressed leaves the coder intact.", TRUST, "§3 C09"),
- "C10": ("exhaustive input sweep in isolated child processes: all short word strings x 100 model programs x 7 stream decoders + chain coder; outcome classification",
+ "C09": ("exhaustive insertion of impossible symbols at every position of every short history on 4 coder families; fault enumeration over every sink capacity and every failing call index; bounded reversed cursor; repeated refusals",
+         "(A) 9 model types x dense out-of-support candidates incl. s + k*2^ProbabilityBits and s + k*2^32; (B) all histories of length <= 5 (thorough 7) over 4 symbols x every insertion position x 7-8 impossible symbols on AnsCoder, RangeEncoder, ChainCoder and the bit coders with a Huffman codebook: ImpossibleSymbol, complete coder state unchanged, continued history round-trips; (C) ANS coder over a bounded Cursor sink of EVERY capacity 0..=needed+1 and over a callback sink failing at EVERY call index: backend error, coder bit-identical, earlier symbols decode, encoding continues after room is made, a failing get_compressed leaves the coder intact. The fault enumeration also runs on a bounded Reverse<Cursor> and repeats the refused write before room is made. Model queries that panic on an out-of-support symbol are violations.", TRUST, "§3 C09"),
+ "C10": ("exhaustive input sweep in isolated child processes: all short word strings x 100 model programs x 7 stream decoders + chain coder; outcome classification; a lookup model obtained by conversion at PRECISION == Probability::BITS among the decoder models",
          "Every u8 string of length <= 2 (thorough 3) plus truncations/extensions of valid streams x all ordered pairs of 10 decoder models (lookup, lazily quantised, quantised Gaussian, uniform, hand-made partitions; precision changing between symbols) alternating over 6 symbols, on AnsCoder (from_binary / from_compressed), RangeDecoder and ChainCoder at 2-3 state widths; u16 strings over boundary words. No panic/abort/hang, only the documented errors, every symbol inside the support. Process isolation turns aborts and hangs into judged outcomes.", TRUST, "§3 C10"),
  "C11": ("exhaustive symbol-sequence DFS; every node decoded under a family of appended suffixes and as first of two back-to-back messages",
          "At every node of the range-coder walk (S = 2W, 4W, 8W) the sealed words are decoded with 8 adversarial suffixes of S/W+2 words and with a second message appended via with_backend; alphabets are iterated by size so that the rare multi-zero-word seals are reached (counter required non-zero).", TRUST, "§3 C11"),
- "C12": ("analytic bound and its inductive step evaluated at every node/edge of the exhaustive walks",
-         "The global size bound (num_valid_bits / num_bits / words) AND the per-step inequality of its proof (potential growth <= info + rounding term) are checked on every node and edge of the encode-only ANS walk and the range walk for all 7 instantiations, incl. precisions with zero headroom.", TRUST + " Bounds evaluated in f64 with 1e-6 bit tolerance.", "§3 C12"),
+ "C12": ("analytic bound and its inductive step evaluated at every node/edge of the exhaustive walks; inspection invariance at every node",
+         "The global size bound (num_valid_bits / num_bits / words) AND the per-step inequality of its proof (potential growth <= info + rounding term) are checked on every node and edge of the encode-only ANS walk and the range walk for all 7 instantiations, incl. precisions with zero headroom. A coder inspected between symbols must stay the coder the bound was derived for.", TRUST + " Bounds evaluated in f64 with 1e-6 bit tolerance.", "§3 C12"),
  "C13": ("exhaustive input sweep on the real ChainCoder: all word strings x all model sequences x 3 continuations; 8 precision schedules; single-step induction over ALL head values of ChainCoder<u8,u16> (hook verif_from_raw_parts)",
          "Every u8 string of length <= 2 (and longer strings over boundary words) x every model sequence of length 2-4 on 9 (Word,State,PRECISION) instantiations, from_binary and from_compressed, each followed by the three documented ways of re-importing remainders, re-encoding and reassembling; precision schedules P1->P2->P1 undone in reverse; documented errors are accepted, wrong reconstructions never. Plus a single-step induction from arbitrary states built with the guarded hook: for all 255 compressed heads x all valid remainders heads of ChainCoder<u8,u16,P=2|4|8> (boundary heads on the wider instantiations) x all letters x several stack tops, decode-then-encode and encode-then-decode restore the coder bit for bit, the decoded symbol is the one the reference chunk rule gives, failing steps leave the coder untouched, and the remainders-head invariant is re-established.", TRUST, "§3 C13"),
- "C14": ("exhaustive input sweep with an independent bit-buffer reference + differential single-bit-flip / model-replacement oracle",
-         "For every data string and model sequence: symbol i equals what model i assigns to chunk i as located by an independent 20-line reference of the bit buffer; every single-bit flip and every model replacement changes at most the owning position and never the out-of-data index.", TRUST, "§3 C14"),
- "C15": ("exhaustive enumeration of weight vectors; brute-force optimality oracle; reference Huffman with (weight,index) ties",
-         "All weight vectors of length <= 6-10 over small weight alphabets as u32/f64/f32, plus special vectors; prefix-freeness, Kraft equality, optimal cost (brute force over all full binary trees for n <= 6), exact tie-breaking, prefix == reversed suffix, decode, rejection of out-of-alphabet symbols, encoder/decoder agreement.", TRUST, "§3 C15"),
- "C16": ("explicit-state BFS of the real StackCoder to a fixed point; exhaustive bit strings on the queue coder; exhaustive Exp-Golomb values",
+ "C14": ("exhaustive input sweep with an independent bit-buffer reference + differential single-bit-flip / model-replacement oracle; seek back after speculative decoding at every snapshot point; persistence of the out-of-data error",
+         "For every data string and model sequence: symbol i equals what model i assigns to chunk i as located by an independent 20-line reference of the bit buffer; every single-bit flip and every model replacement changes at most the owning position and never the out-of-data index. After decoding i symbols, recording pos(), decoding on with another model and seeking back, every later position must decode as in the straight-through run; once the coder has reported that it ran out of data it must keep doing so.", TRUST, "§3 C14"),
+ "C15": ("exhaustive enumeration of weight vectors; brute-force optimality oracle; reference Huffman with (weight,index) ties; deep trees with codewords of up to 199 bits",
+         "All weight vectors of length <= 6-10 over small weight alphabets as u32/f64/f32, plus special vectors; prefix-freeness, Kraft equality, optimal cost (brute force over all full binary trees for n <= 6), exact tie-breaking, prefix == reversed suffix, decode, rejection of out-of-alphabet symbols, encoder/decoder agreement. Fibonacci / geometric weights as u64, u128 and f64 give codewords beyond 64 and 128 bits; exact Kraft check for any length.", TRUST, "§3 C15"),
+ "C16": ("explicit-state BFS of the real StackCoder to a fixed point; exhaustive bit strings on the queue coder; exhaustive Exp-Golomb values; exact exhaustion obligation of the bit queue decoder",
          "All reachable states of StackCoder<u8/u16/u32> with up to 13-18 content bits under {write 0/1, read, export->re-import, inspect}, canonical key = full Debug representation + reference content, until the frontier empties; every bit string through QueueEncoder/QueueDecoder; every u8 pair and u16 value (boundary values of u32/u64) through Exp-Golomb on both coders; symbol codes interleaved with raw bits.", TRUST, "§3 C16"),
- "C18": ("size queries compared with the export at every node of the exhaustive walks; diagnostics vs textbook formulas on exhaustive small model spaces",
-         "(a) num_words/num_bits/is_empty/iter_compressed vs what exporting returns, and decoder exhaustion along the way (whole unread words => not exhausted; exact end => maybe exhausted), at every node of the range and ANS walks incl. raw-binary loads; (b) entropy, cross entropy and KL in both directions, floating-point symbol tables and probabilities for all 127 models at P=3 (contiguous and non-contiguous), P=4 models, full-precision and 24-bit models, uniform and quantised models x 5 reference distributions incl. zeros, in f64 and f32.", TRUST + " Relative tolerance 1e-9 (f64) / 1e-4 (f32).", "§3 C18"),
- "C19": ("exhaustive input sweep in isolated child processes over invalid and valid constructor inputs; outcome classification (Err / clean panic / valid model / invalid model / overflow / abort / hang)",
-         "Every float table of length <= 2 (thorough 3) over 25 letters incl. -0.0, negative, NaN, +-inf entries x 7 normalization variants (none, exact, half, double, 0, NaN, negative); ALL u8 fixed-point tables of length <= 2 (thorough: 3) x infer_last x symbol lists of matching / shorter / longer length / with duplicates, at 5 precisions incl. PRECISION == Probability::BITS; u16 boundary tables; every support size 0..=2^P+2 for P <= 8 and sizes aliasing modulo 2^ProbabilityBits on 9 type combinations; uniform ranges incl. aliasing ones. Completeness: every table that denotes a valid model must be accepted (also with infer_last at full precision).", TRUST, "§3 C19"),
- "C17": ("explicit-state BFS over (buffer, position) with full dedup to a fixed point on 4 cursor kinds; exhaustive op sequences on Vec/SmallVec",
-         "Every reachable (buffer contents, position) state with buffer length <= 5 (thorough 7): each op executed on Cursor<Vec>, Cursor<&mut [W]>, Cursor<&[W]>, Reverse<Cursor> and the reference; reported remaining/space_left compared with the number of operations that actually succeed; fused end; into_reversed as a bisimulation; views/clones; Vec/SmallVec/iterator/callback adapters.", TRUST, "§3 C17"),
- "C20": ("hostile safe-API programs enumerated exhaustively in isolated child processes built with std's unsafe-precondition checks, overflow checks and debug assertions inside constriction; plus the C19 and C10 sweeps in classification mode",
-         "Every (buffer length <= 4, position, Cursor::buf_mut mutation, backend operation) combination; every user-written IterableEntropyModel table of <= 2 rows over boundary values (and truncated/overfull/non-monotone ones) through every conversion and then queried at every quantile; quantile_function at EVERY value of the probability type on 12 decoder models; AnsCoder::from_raw_parts from all 65536 head values; range coders from boundary raw parts; the complete C19 constructor sweep and C10 decoding sweep. Violation = abort (unsafe precondition violated, allocation failure), signal, hang, or an overflow panic raised inside the library; error values and other panics are fine.", TRUST + " UB verdicts are those of std's ub-checks on the executions enumerated (no ASan/Miri pass in the registered commands).", "§3 C20"),
+ "C18": ("size queries compared with the export at every node of the exhaustive walks; diagnostics vs textbook formulas on exhaustive small model spaces; raw-binary loads; bit-coder size and exhaustion queries through the C16 explorers",
+         "(a) num_words/num_bits/is_empty/iter_compressed vs what exporting returns, and decoder exhaustion along the way (whole unread words => not exhausted; exact end => maybe exhausted), at every node of the range and ANS walks incl. raw-binary loads; (b) entropy, cross entropy and KL in both directions, floating-point symbol tables and probabilities for all 127 models at P=3 (contiguous and non-contiguous), P=4 models, full-precision and 24-bit models, uniform and quantised models x 5 reference distributions incl. zeros, in f64 and f32. from_binary of every short word string: num_valid_bits, emptiness, sizes and export. Bit stack len / is_empty at every BFS state and bit queue decoder maybe_exhausted after every bit of every bit string (whole words unread => not exhausted).", TRUST + " Relative tolerance 1e-9 (f64) / 1e-4 (f32).", "§3 C18"),
+ "C19": ("exhaustive input sweep in isolated child processes over invalid and valid constructor inputs; outcome classification (Err / clean panic / valid model / invalid model / overflow / abort / hang); the Python front end's Categorical constructor over every short float table",
+         "Every float table of length <= 2 (thorough 3) over 25 letters incl. -0.0, negative, NaN, +-inf entries x 7 normalization variants (none, exact, half, double, 0, NaN, negative); ALL u8 fixed-point tables of length <= 2 (thorough: 3) x infer_last x symbol lists of matching / shorter / longer length / with duplicates, at 5 precisions incl. PRECISION == Probability::BITS; u16 boundary tables; every support size 0..=2^P+2 for P <= 8 and sizes aliasing modulo 2^ProbabilityBits on 9 type combinations; uniform ranges incl. aliasing ones. Completeness: every table that denotes a valid model must be accepted (also with infer_last at full precision). Long float tables at tiny precisions (more symbols than 2^PRECISION). Through the Python front end: every table of length <= 3 over 16 boundary floats (f32/f64, fast/perfect/lazy): ValueError or a valid model.", TRUST, "§3 C19"),
+ "C17": ("explicit-state BFS over (buffer, position) with full dedup to a fixed point on 4 cursor kinds; exhaustive op sequences on Vec/SmallVec; extend_from_iter as an operation on every sink",
+         "Every reachable (buffer contents, position) state with buffer length <= 5 (thorough 7): each op executed on Cursor<Vec>, Cursor<&mut [W]>, Cursor<&[W]>, Reverse<Cursor> and the reference; reported remaining/space_left compared with the number of operations that actually succeed; fused end; into_reversed as a bisimulation; views/clones; Vec/SmallVec/iterator/callback adapters. extend_from_iter with 0-3 words is an operation of the alphabet on every sink and must equal the per-word loop, short-circuiting on the first refused word.", TRUST, "§3 C17"),
+ "C20": ("hostile safe-API programs enumerated exhaustively in isolated child processes built with std's unsafe-precondition checks, overflow checks and debug assertions inside constriction; plus the C19 and C10 sweeps in classification mode; Huffman / bit-coder / Exp-Golomb / seek / chain-coder hostile families",
+         "Every (buffer length <= 4, position, Cursor::buf_mut mutation, backend operation) combination; every user-written IterableEntropyModel table of <= 2 rows over boundary values (and truncated/overfull/non-monotone ones) through every conversion and then queried at every quantile; quantile_function at EVERY value of the probability type on 12 decoder models; AnsCoder::from_raw_parts from all 65536 head values; range coders from boundary raw parts; the complete C19 constructor sweep and C10 decoding sweep. Violation = abort (unsafe precondition violated, allocation failure), signal, hang, or an overflow panic raised inside the library; error values and other panics are fine. Added families: Huffman trees from every weight vector of length <= 5 with every symbol in and around the alphabet and every short bit string; bit coders and Exp-Golomb on arbitrary bits (every bit string of length <= 18 for u8); seek with every position and boundary states; ChainCoder constructors and operations in hostile orders.", TRUST + " UB verdicts are those of std's ub-checks on the executions enumerated (no ASan/Miri pass in the registered commands).", "§3 C20"),
 }
 
 CLAIMED = []  # filled below as modules land
